@@ -34,6 +34,9 @@ def values? (s : String) : Option Values :=
 def optRat? (s : String) : Option (Option Rat) :=
   if s == "_" then some none else (rat? s).map some
 
+def optRatList? (s : String) : Option (Option (List Rat)) :=
+  if s == "_" then some none else (ratList? s).map some
+
 def algo? (s : String) : Option Algo :=
   if s == "diffusion" then some .diffusion else if s == "dirichlet" then some .dirichlet else none
 
@@ -71,14 +74,27 @@ def handle : Handler
       | .error e => some ("err " ++ e.show)
       | .ok o => some s!"ok {showRatList o.values} {showOpt o.valuesRow} {showOpt o.valuesCol}") "bad-args"
   -- the property's predicate on an implementation output (block numbering when bipartite)
-  | "c14.spec_maxp", [al, n, m, ip, ix, dt, bip, s, ini, alpha, tol, out] => some <| Option.getD (do
+  | "c14.spec_maxp", [al, n, m, ip, ix, dt, bip, s, ini, alpha, tol, ov, orow, ocol] => some <| Option.getD (do
       let algo ← algo? al
       let (k, w) ← specGraph n m ip ix dt bip
       let s ← seeds? s
       let ini ← optRat? ini
       let alpha ← rat? alpha
       let tol ← rat? tol
-      let out ← ratList? out
+      let c0 ← csrRat? n m ip ix dt
+      let isBip ← bool? bip
+      let ov ← ratList? ov
+      let orow ← optRatList? orow
+      let ocol ← optRatList? ocol
+      -- `values_`, `values_row_`, `values_col_`: the shape of the observable outputs
+      let shapeOk := match isBip, orow, ocol with
+        | true, some r, some cc => r.length == c0.nRow && cc.length == c0.nCol && ov == r
+        | false, none, none => true
+        | _, _, _ => false
+      if !shapeOk then some "fails output-shape" else
+      let out := match orow, ocol with
+        | some r, some cc => r ++ cc
+        | _, _ => ov
       if !seedsOk k s then some "pre-fails seeds" else
       let lo := (HeatSpec.minList (s.map (·.2))).getD 0
       let hi := (HeatSpec.maxList (s.map (·.2))).getD 0
